@@ -99,7 +99,7 @@ class Ctx:
         if not flagged:
             raise AnalysisError(f"{rule}: built-in positive example not flagged ({what}); rule is broken")
 
-    def borrow(self, other_prop, rule_prefix, as_prefix, why):
+    def borrow(self, other_prop, rule_prefix, as_prefix, why, key=None):
         """Re-state obligations of ANOTHER property's check under this property's ids: the other module's check() runs on a scratch
         context that shares this one's program model, and its obligations whose rule id starts with `rule_prefix` are copied with
         the prefix replaced by `as_prefix`. Used where one structural fact is a necessary condition of two statements (e.g. "every
@@ -110,7 +110,7 @@ class Ctx:
         importlib.import_module(f"sa.props.{other_prop.lower()}").check(sub)
         n = 0
         for o in sub.obs:
-            if o.rule.startswith(rule_prefix):
+            if o.rule.startswith(rule_prefix) and (key is None or key(o.key)):
                 self.ob(as_prefix + o.rule[len(rule_prefix):], o.key, o.ok, o.where, (o.detail + f" [{why}]") if not o.ok else o.detail, o.nontrivial)
                 n += 1
         for fq in sub.analysed_functions:
